@@ -290,6 +290,7 @@ func cliOracleC10(r *Rng, n int, thorough bool, seeds []string) *OracleResult {
 	seen := map[uint64]struct{}{}
 	run := func(sc cliMScenario, tags []string) {
 		line := sc.line()
+		cliNoteLine(line)
 		out := cliRunMulti(sc)
 		res.Evaluations++
 		if len(sc.callers) > 1 || len(sc.groups) > 4 {
@@ -345,5 +346,5 @@ func init() {
 			Compare:    cliCompareSetOrWild,
 		})
 	}
-	registerOracle(&Oracle{Name: "c10", Run: cliOracleC10})
+	registerOracle(&Oracle{Name: "c10", Run: cliCrashGuard("c10", cliOracleC10)})
 }
